@@ -391,21 +391,21 @@ def keyedRem : List Str → List KE → List KE → List KE × List KE
     | none => keyedRem ks sr orr
     | some _ => keyedRem ks (eraseKey k sr) (eraseKey k orr)
 
-theorem keysOf_length_sw (cfg : Cfg) (p : Path) : ∀ (xs : List Val) (ks : List Str),
-    keysOf cfg p xs = .ok ks → ks.length = xs.length
-  | [], ks, h => by simp only [keysOf] at h; cases h; rfl
-  | x :: xs, ks, h => by
+theorem keysOf_length_sw (cfg : Cfg) (p : Path) : ∀ (i : Nat) (xs : List Val) (ks : List Str),
+    keysOf cfg p i xs = .ok ks → ks.length = xs.length
+  | _, [], ks, h => by simp only [keysOf] at h; cases h; rfl
+  | i, x :: xs, ks, h => by
     simp only [keysOf] at h
-    cases hk : keyOf cfg p x with
+    cases hk : keyOf cfg p i x with
     | error e => rw [hk] at h; cases h
     | ok k =>
       rw [hk] at h
       simp only at h
-      cases hr : keysOf cfg p xs with
+      cases hr : keysOf cfg p (i + 1) xs with
       | error e => rw [hr] at h; cases h
       | ok ks' =>
         rw [hr] at h; cases h
-        simp [keysOf_length_sw cfg p xs ks' hr]
+        simp [keysOf_length_sw cfg p (i + 1) xs ks' hr]
 
 theorem mkEntries_keys_sw : ∀ (ks : List Str) (xs : List Val) (i : Nat), xs.length = ks.length →
     (mkEntries i ks xs).map (·.1) = ks
@@ -1181,7 +1181,7 @@ mutual
 /-- every list (at every depth) has pairwise different item keys -/
 def keysOK (cfg : Cfg) : Val → Bool
   | .list _ xs => keysOKL cfg xs &&
-      (match keysOf cfg [] xs with
+      (match keysOf cfg [] 0 xs with
        | .ok ks => decide ks.Nodup
        | .error _ => false)
   | .dict _ kvs => keysOKK cfg kvs
